@@ -6,9 +6,14 @@ import KitProofs.Lemmas.Pool
 
 Theorems about every reachable state of the transition system `Kit.Pool` (any interleaving of the
 watcher goroutine with any number of `Add`/`Cancel`/`Size` callers and context ends, any initial
-contexts).  "Member" is the ghost list `State.members`, maintained exactly as the statement
-defines it (`members_init`, `members_step`); "Cancel was called" is `State.closed`
-(`closed_only_by_cancel`); "tracked" is `State.pool`, what `Size` counts.
+contexts), for the code after `fix: context.Pool.Add ignores a context when every context in the
+pool is already done` (`Version.fixed`).  "Member" is the ghost list `State.members`, maintained
+exactly as the statement defines it (`members_init`, `members_step_add`, `members_step_other`);
+"Cancel was called" is `State.closed` (`closed_only_by_cancel`); "tracked" is `State.pool`, what
+`Size` counts.  The liveness theorems (`eventually_done*`, `writer_not_stuck`,
+`watcher_relock_not_stuck`) are ∃-path statements: they exhibit a finite sequence of internal
+steps, they do not prove fairness of the Go scheduler.  The code as found (`Version.orig`)
+falsifies the liveness half: `late_add_tracked_witness`, `eventually_done_fails_before_fix`.
 -/
 namespace Kit.Pool.C20
 open Kit.Pool
@@ -20,7 +25,7 @@ theorem members_init (cfg : Config) : (init cfg).members = cfg.ctxs := rfl
 
 /-- A context becomes a member exactly when the body of `Add` runs while the pool context is not
 done and some member has not ended … -/
-theorem members_step_add {s s' : State} {c : Nat} (h : step s .complete = some s')
+theorem members_step_add {s s' : State} {c : Nat} (h : step .fixed s .complete = some s')
     (hw : s.writer = some (.add c)) :
     s'.members =
       if s.done = false ∧ ∃ m ∈ s.members, m ∉ s.ended then c :: s.members else s.members := by
@@ -32,7 +37,7 @@ theorem members_step_add {s s' : State} {c : Nat} (h : step s .complete = some s
     split <;> simp
 
 /-- … and nothing else changes the members (nor `p.pool`, `closed`, the accepted list). -/
-theorem members_step_other {s s' : State} {a : Label} (h : step s a = some s')
+theorem members_step_other {s s' : State} {a : Label} (h : step .fixed s a = some s')
     (ha : a ≠ .complete) :
     s'.members = s.members ∧ s'.pool = s.pool ∧ s'.closed = s.closed ∧ s'.accepted = s.accepted := by
   cases a <;> simp only [step] at h
@@ -57,7 +62,7 @@ theorem members_step_other {s s' : State} {a : Label} (h : step s a = some s')
   case wCancel => split at h <;> cases h; simp
 
 /-- The body of `Cancel` does not change the members. -/
-theorem members_step_cancel {s s' : State} (h : step s .complete = some s')
+theorem members_step_cancel {s s' : State} (h : step .fixed s .complete = some s')
     (hw : s.writer = some .cancel) : s'.members = s.members := by
   simp only [step, hw] at h
   split at h
@@ -67,7 +72,7 @@ theorem members_step_cancel {s s' : State} (h : step s .complete = some s')
     split <;> rfl
 
 /-- `closed` (and with it `p.pool == nil`) is set by the body of `Cancel` and by nothing else. -/
-theorem closed_only_by_cancel {s s' : State} {a : Label} (h : step s a = some s')
+theorem closed_only_by_cancel {s s' : State} {a : Label} (h : step .fixed s a = some s')
     (h0 : s.closed = false) (h1 : s'.closed = true) : a = .complete ∧ s.writer = some .cancel := by
   by_cases ha : a = .complete
   · subst ha
@@ -92,7 +97,7 @@ theorem closed_only_by_cancel {s s' : State} {a : Label} (h : step s a = some s'
 
 /-- The pool context is done only if `Cancel` was called or every member — every context passed
 at creation, and every context added while the pool was live and some member was live — has ended. -/
-theorem never_early {cfg : Config} {s : State} (hr : Reach cfg s) (hd : s.done = true) :
+theorem never_early {cfg : Config} {s : State} (hr : Reach .fixed cfg s) (hd : s.done = true) :
     s.closed = true ∨ ∀ m ∈ s.members, m ∈ s.ended := by
   have hI := inv_of_reach hr
   cases hc : s.closed with
@@ -100,7 +105,7 @@ theorem never_early {cfg : Config} {s : State} (hr : Reach cfg s) (hd : s.done =
   | false => exact Or.inr (hI.exited hc (Or.inr (Or.inr (hI.done_iff.mp hd))))
 
 /-- Initial contexts in particular. -/
-theorem never_early_initial {cfg : Config} {s : State} (hr : Reach cfg s) (hd : s.done = true)
+theorem never_early_initial {cfg : Config} {s : State} (hr : Reach .fixed cfg s) (hd : s.done = true)
     (hc : s.closed = false) : ∀ c ∈ cfg.ctxs, c ∈ s.ended := by
   intro c hcin
   rcases never_early hr hd with h | h
@@ -108,7 +113,7 @@ theorem never_early_initial {cfg : Config} {s : State} (hr : Reach cfg s) (hd : 
   · exact h c ((inv_of_reach hr).init_mem c hcin)
 
 /-- While the watcher is in its loop every live member is tracked in `p.pool` (so it will be waited for). -/
-theorem live_member_is_tracked {cfg : Config} {s : State} (hr : Reach cfg s) (hc : s.closed = false)
+theorem live_member_is_tracked {cfg : Config} {s : State} (hr : Reach .fixed cfg s) (hc : s.closed = false)
     {m : Nat} (hm : m ∈ s.members) (hl : m ∉ s.ended) : m ∈ s.pool ∧ s.done = false := by
   have hI := inv_of_reach hr
   refine ⟨hI.tracked hc m hm hl, ?_⟩
@@ -131,21 +136,36 @@ def exampleEnd : State :=
   { pool := [1, 5], ended := [5, 1, 2], pc := .finished, writer := none, closed := false, done := true,
     members := [5, 1, 2], accepted := [5] }
 
-theorem exampleRun_ok : run (init exampleCfg) exampleRun = some exampleEnd := by decide
+theorem exampleRun_ok : run .fixed (init exampleCfg) exampleRun = some exampleEnd := by decide
 
-example : ∃ cfg s, Reach cfg s ∧ s.done = true ∧ s.closed = false ∧ s.members ≠ [] :=
+example : ∃ cfg s, Reach .fixed cfg s ∧ s.done = true ∧ s.closed = false ∧ s.members ≠ [] :=
   ⟨exampleCfg, exampleEnd, reach_of_run _ _ _ .init exampleRun_ok, rfl, rfl, by decide⟩
 
-/-- The restriction to members matters, and the model has the window the statement allows:
-NewPool(ctx1); ctx1 ends; the watcher leaves its loop and releases the read lock; Add(ctx5) gets
-the write lock before `cancel()` and appends; the pool is done while ctx5 — tracked by `Size`,
-but not a member, since no member was live when it was added — has not ended. -/
+/-- Every tracked context is a member: the repaired `Add` appends only while some tracked
+context is live, and that context is (inductively) a member, so the statement's condition "added
+while the pool was still live and some member was still live" holds for everything in `p.pool`. -/
+theorem tracked_are_members {cfg : Config} {s : State} (hr : Reach .fixed cfg s) :
+    ∀ c ∈ s.pool, c ∈ s.members :=
+  pm_of_reach hr
+
+/-- Hence: when the pool context is done and `Cancel` was not called, every tracked context has
+ended — no context is counted by `Size` but not waited for. -/
+theorem done_all_tracked_ended {cfg : Config} {s : State} (hr : Reach .fixed cfg s)
+    (hd : s.done = true) (hc : s.closed = false) : ∀ c ∈ s.pool, c ∈ s.ended := by
+  intro c hcp
+  rcases never_early hr hd with h | h
+  · rw [hc] at h; cases h
+  · exact h c (tracked_are_members hr c hcp)
+
+/-- Before the fix: NewPool(ctx1); ctx1 ends; the watcher leaves its loop and releases the read
+lock; Add(ctx5) gets the write lock before `cancel()` and appends; the pool is done while ctx5 —
+counted by `Size`, not a member — has not ended. -/
 def windowEnd : State :=
   { pool := [1, 5], ended := [1], pc := .finished, writer := none, closed := false, done := true,
     members := [1], accepted := [5] }
 
-theorem add_in_exit_window_not_waited_for :
-    ∃ cfg s, Reach cfg s ∧ s.done = true ∧ s.closed = false ∧ 5 ∈ s.pool ∧ 5 ∉ s.ended ∧ 5 ∉ s.members :=
+theorem exit_window_witness_before_fix :
+    ∃ cfg s, Reach .orig cfg s ∧ s.done = true ∧ s.closed = false ∧ 5 ∈ s.pool ∧ 5 ∉ s.ended ∧ 5 ∉ s.members :=
   ⟨{ ctxs := [1], ended0 := [] }, windowEnd,
     reach_of_run [.wHead, .endCtx 1, .wWake, .wRelock, .wHead, .wUnlock, .lockReq (.add 5), .complete, .wCancel]
       _ _ .init (by decide),
@@ -153,61 +173,57 @@ theorem add_in_exit_window_not_waited_for :
 
 /-! ## eventually done -/
 
-/-- Internal progress: in every reachable state in which `Cancel` has run, or every tracked
-context has ended (and no `Add` of a still-live context is already inside `Lock()`), some
-sequence of internal steps — watcher steps and the completion of the writer already inside
-`Lock()`; no new call, no context end — leads to a state in which the pool context is done. -/
-theorem eventually_done {cfg : Config} {s : State} (hr : Reach cfg s) (hS : Settled s) :
-    ∃ s', InternalPath s s' ∧ s'.done = true :=
-  path_of_settled hr hS
+/-- The liveness half as the statement has it: in every reachable state in which `Cancel` was
+called or every member has ended, some sequence of internal steps — watcher steps and the
+completion of the writer already inside `Lock()`; no new call, no context end — leads to a state
+in which the pool context is done. -/
+def eventually_done_statement (v : Version) : Prop :=
+  ∀ (cfg : Config) (s : State), Reach v cfg s →
+    (s.closed = true ∨ ∀ m ∈ s.members, m ∈ s.ended) →
+    ∃ s', InternalPath v s s' ∧ s'.done = true
 
-theorem eventually_done_after_cancel {cfg : Config} {s : State} (hr : Reach cfg s)
-    (hc : s.closed = true) : ∃ s', InternalPath s s' ∧ s'.done = true :=
-  eventually_done hr (Or.inl hc)
+/-- It holds for the repaired code (∃-path statement; measure `len(p.pool) − i`).  Whatever writer
+is inside `Lock()` does not matter: a pending `Add` finds no live context and is ignored. -/
+theorem eventually_done : eventually_done_statement .fixed :=
+  fun _ _ hr hS => path_of_settled hr hS
 
-theorem eventually_done_all_ended {cfg : Config} {s : State} (hr : Reach cfg s)
-    (hw : s.writer = none) (hall : ∀ c ∈ s.pool, c ∈ s.ended) :
-    ∃ s', InternalPath s s' ∧ s'.done = true :=
-  eventually_done hr (Or.inr ⟨hall, by intro c h; rw [hw] at h; cases h⟩)
+theorem eventually_done_after_cancel {cfg : Config} {s : State} (hr : Reach .fixed cfg s)
+    (hc : s.closed = true) : ∃ s', InternalPath .fixed s s' ∧ s'.done = true :=
+  eventually_done cfg s hr (Or.inl hc)
 
-/-- The liveness half in the statement's own terms: when every member has ended and the pool
-tracks nothing but members (no `Add` slipped in after the last member ended, see
-`racing_add_may_be_tracked`), internal steps lead to done. -/
-theorem eventually_done_members {cfg : Config} {s : State} (hr : Reach cfg s)
-    (hw : s.writer = none) (hm : ∀ m ∈ s.members, m ∈ s.ended) (hp : ∀ c ∈ s.pool, c ∈ s.members) :
-    ∃ s', InternalPath s s' ∧ s'.done = true :=
-  eventually_done_all_ended hr hw (fun c hc => hm c (hp c hc))
+theorem eventually_done_members_ended {cfg : Config} {s : State} (hr : Reach .fixed cfg s)
+    (hm : ∀ m ∈ s.members, m ∈ s.ended) : ∃ s', InternalPath .fixed s s' ∧ s'.done = true :=
+  eventually_done cfg s hr (Or.inr hm)
 
 /-- A pool created with no live context is done after internal steps alone. -/
 theorem eventually_done_empty (cfg : Config) (h : ∀ c ∈ cfg.ctxs, c ∈ cfg.ended0) :
-    ∃ s', InternalPath (init cfg) s' ∧ s'.done = true := by
-  apply eventually_done_all_ended (cfg := cfg) .init rfl
-  intro c hc
-  simp [init, initLive] at hc
-  exact absurd (h c hc.1) hc.2
+    ∃ s', InternalPath .fixed (init cfg) s' ∧ s'.done = true :=
+  eventually_done cfg (init cfg) .init (Or.inr h)
 
-/-- Non-vacuity: a reachable, settled, not yet done state with a writer inside `Lock()`
-(NewPool(ctx1, ctx2), ctx2 cancelled before; ctx1 ends; `Add(ctx2)` announced while the watcher
-is parked after its select). -/
-example : ∃ cfg s, Reach cfg s ∧ Settled s ∧ s.done = false ∧ s.writer ≠ none :=
+/-- Non-vacuity: a reachable, not yet done state in which every member has ended while an
+`Add` of a *live* context is already inside `Lock()` (NewPool(ctx1, ctx2), ctx2 cancelled before;
+ctx1 ends; `Add(ctx9)` announced while the watcher is parked after its select). -/
+example : ∃ cfg s, Reach .fixed cfg s ∧ (∀ m ∈ s.members, m ∈ s.ended) ∧ s.done = false ∧
+    s.writer = some (.add 9) ∧ 9 ∉ s.ended :=
   ⟨exampleCfg,
-    { pool := [1], ended := [1, 2], pc := .woken 0, writer := some (.add 2), closed := false,
+    { pool := [1], ended := [1, 2], pc := .woken 0, writer := some (.add 9), closed := false,
       done := false, members := [1, 2], accepted := [] },
-    reach_of_run [.wHead, .endCtx 1, .wWake, .lockReq (.add 2)] _ _ .init (by decide),
-    Or.inr ⟨by decide, by intro c h; cases h; decide⟩, rfl, by decide⟩
+    reach_of_run [.wHead, .endCtx 1, .wWake, .lockReq (.add 9)] _ _ .init (by decide),
+    by decide, rfl, rfl, by decide⟩
 
-/-- The reading of "member" in the liveness half matters.  An `Add` that takes the write lock
-after the last member ended but before the watcher re-acquired the read lock (hook point
-`pool.watch.afterWait`) is *tracked*: every member in the sense of the statement has ended, yet
-no internal step leads to done until the late context ends too.  (`eventually_done` is therefore
-stated over the tracked contexts, `never_early` over the members.) -/
+/-- The code as found falsifies the statement.  NewPool(ctx1); ctx1 ends; the watcher's select
+returns (hook point `pool.watch.afterWait`) but it has not re-acquired the read lock; `Add(ctx5)`,
+ctx5 live, takes the write lock and appends although every context of the pool is done; the
+watcher then waits for ctx5.  Every member has ended, `Cancel` was not called, and no internal
+step is enabled.  (Replayed on the real code by the harness: finding
+`late-add-tracked-after-members-ended`.) -/
 def lateAdd : State :=
   { pool := [1, 5], ended := [1], pc := .waiting 1 5, writer := none, closed := false, done := false,
     members := [1], accepted := [5] }
 
-theorem racing_add_may_be_tracked :
-    ∃ cfg s, Reach cfg s ∧ s.closed = false ∧ (∀ m ∈ s.members, m ∈ s.ended) ∧
-      ¬ ∃ s', InternalPath s s' ∧ s'.done = true := by
+theorem late_add_tracked_witness :
+    ∃ cfg s, Reach .orig cfg s ∧ s.closed = false ∧ (∀ m ∈ s.members, m ∈ s.ended) ∧
+      ¬ ∃ s', InternalPath .orig s s' ∧ s'.done = true := by
   refine ⟨{ ctxs := [1], ended0 := [] }, lateAdd,
     reach_of_run [.wHead, .endCtx 1, .wWake, .lockReq (.add 5), .complete, .wRelock, .wHead]
       _ _ .init (by decide), rfl, by decide, ?_⟩
@@ -218,30 +234,58 @@ theorem racing_add_may_be_tracked :
     rename_i a _
     cases a <;> simp [Label.isInternal, Label.isWatcher] at hi <;> simp [step, lateAdd] at hs
 
+theorem eventually_done_fails_before_fix : ¬ eventually_done_statement .orig := by
+  intro h
+  obtain ⟨cfg, s, hr, _, hm, hno⟩ := late_add_tracked_witness
+  exact hno (h cfg s hr (Or.inr hm))
+
+/-- The same schedule on the repaired code: the late `Add` is ignored. -/
+theorem late_add_ignored_after_fix :
+    run .fixed (init { ctxs := [1], ended0 := [] })
+      [.wHead, .endCtx 1, .wWake, .lockReq (.add 5), .complete, .wRelock, .wHead, .wUnlock, .wCancel] =
+    some { pool := [1], ended := [1], pc := .finished, writer := none, closed := false, done := true,
+           members := [1], accepted := [] } := by
+  decide
+
 /-! ## contexts offered after the pool ended are ignored -/
 
 /-- `Add` on a pool whose context is done returns (it never blocks: the watcher is gone) and
 changes nothing — not the tracked contexts, not the members. -/
-theorem add_after_done_ignored {cfg : Config} {s : State} {c : Nat} (hr : Reach cfg s)
+theorem add_after_done_ignored {cfg : Config} {s : State} {c : Nat} (hr : Reach .fixed cfg s)
     (hd : s.done = true) (hw : s.writer = some (.add c)) :
-    step s .complete = some { s with writer := none } := by
+    step .fixed s .complete = some { s with writer := none } := by
   have hI := inv_of_reach hr
   have hpc := hI.done_iff.mp hd
-  simp [step, hw, hpc, PC.holdsRead, applyOp, hd]
+  simp [step, hw, hpc, PC.holdsRead, applyOp, State.addIgnored, hd]
 
 /-- Same after `Cancel`, even before the watcher has cancelled the pool context: `Size`, the
 watcher and the pool context are unaffected. -/
 theorem add_after_cancel_ignored {s s' : State} {c : Nat} (hc : s.closed = true)
-    (hw : s.writer = some (.add c)) (h : step s .complete = some s') :
+    (hw : s.writer = some (.add c)) (h : step .fixed s .complete = some s') :
     s'.pool = s.pool ∧ s'.pc = s.pc ∧ s'.done = s.done ∧ s'.closed = true ∧ s'.accepted = s.accepted := by
   simp only [step, hw] at h
   split at h
   · cases h
   · cases h
-    simp [applyOp, hc]
+    simp [applyOp, State.addIgnored, hc]
+
+/-- "The context is ignored … if all current contexts in the pool are done": when no tracked
+context is live the body of `Add` changes neither `p.pool` nor anything the watcher reads. -/
+theorem add_when_all_done_ignored {s s' : State} {c : Nat} (hall : ∀ x ∈ s.pool, x ∈ s.ended)
+    (hw : s.writer = some (.add c)) (h : step .fixed s .complete = some s') :
+    s'.pool = s.pool ∧ s'.pc = s.pc ∧ s'.done = s.done ∧ s'.closed = s.closed ∧ s'.accepted = s.accepted := by
+  simp only [step, hw] at h
+  split at h
+  · cases h
+  · cases h
+    have hal : State.anyLive { s with writer := none } = false := by
+      simp only [State.anyLive, List.any_eq_false, decide_eq_true_eq]
+      intro x hx hne
+      exact hne (hall x hx)
+    simp [applyOp, State.addIgnored, hal]
 
 /-- Once done, always done. -/
-theorem done_stable {s s' : State} {a : Label} (h : step s a = some s') (hd : s.done = true) :
+theorem done_stable {s s' : State} {a : Label} (h : step .fixed s a = some s') (hd : s.done = true) :
     s'.done = true := by
   cases a <;> simp only [step] at h
   case lockReq op => split at h <;> cases h; exact hd
@@ -273,7 +317,7 @@ theorem done_stable {s s' : State} {a : Label} (h : step s a = some s') (hd : s.
   case wUnlock => split at h <;> cases h; exact hd
   case wCancel => split at h <;> cases h; rfl
 
-example : ∃ cfg s, Reach cfg s ∧ s.done = true ∧ s.writer = some (.add 7) :=
+example : ∃ cfg s, Reach .fixed cfg s ∧ s.done = true ∧ s.writer = some (.add 7) :=
   ⟨exampleCfg, { exampleEnd with writer := some (.add 7) },
     reach_of_run (exampleRun ++ [.lockReq (.add 7)]) _ _ .init (by decide), rfl, rfl⟩
 
@@ -281,8 +325,8 @@ example : ∃ cfg s, Reach cfg s ∧ s.done = true ∧ s.writer = some (.add 7) 
 
 /-- `Size()` changes nothing and returns the number of tracked contexts: the contexts that were
 live at creation plus those appended by `Add` (`accepted`), and 0 once `Cancel` has run. -/
-theorem size_spec {cfg : Config} {s s' : State} {n : Nat} (hr : Reach cfg s)
-    (h : step s (.size n) = some s') :
+theorem size_spec {cfg : Config} {s s' : State} {n : Nat} (hr : Reach .fixed cfg s)
+    (h : step .fixed s (.size n) = some s') :
     s' = s ∧ n = s.pool.length ∧
       n = if s.closed then 0 else (initLive cfg).length + s.accepted.length := by
   have hI := inv_of_reach hr
@@ -298,36 +342,38 @@ theorem size_spec {cfg : Config} {s s' : State} {n : Nat} (hr : Reach cfg s)
   · cases h
 
 /-- `accepted` grows exactly when the body of `Add` runs on a pool that is neither done nor
-cancelled (for all other steps see `members_step_other`). -/
-theorem accepted_step_add {s s' : State} {c : Nat} (h : step s .complete = some s')
+cancelled and still tracks a live context (for all other steps see `members_step_other`). -/
+theorem accepted_step_add {s s' : State} {c : Nat} (h : step .fixed s .complete = some s')
     (hw : s.writer = some (.add c)) :
-    s'.accepted = if s.done = false ∧ s.closed = false then s.accepted ++ [c] else s.accepted := by
+    s'.accepted =
+      if s.done = false ∧ s.closed = false ∧ s.anyLive = true then s.accepted ++ [c] else s.accepted := by
   simp only [step, hw] at h
   split at h
   · cases h
   · cases h
-    simp only [applyOp]
-    cases s.done <;> cases s.closed <;> simp
+    have hal : State.anyLive { s with writer := none } = s.anyLive := rfl
+    simp only [applyOp, State.addIgnored, hal]
+    cases s.done <;> cases s.closed <;> cases s.anyLive <;> simp
 
-theorem size_zero_after_cancel {cfg : Config} {s s' : State} {n : Nat} (hr : Reach cfg s)
-    (hc : s.closed = true) (h : step s (.size n) = some s') : n = 0 := by
+theorem size_zero_after_cancel {cfg : Config} {s s' : State} {n : Nat} (hr : Reach .fixed cfg s)
+    (hc : s.closed = true) (h : step .fixed s (.size n) = some s') : n = 0 := by
   have := (size_spec hr h).2.2
   simpa [hc] using this
 
 /-- `Size()` is enabled (returns) whenever no writer is inside `Lock()`. -/
-theorem size_enabled {s : State} (hw : s.writer = none) : step s (.size s.pool.length) = some s := by
+theorem size_enabled {s : State} (hw : s.writer = none) : step .fixed s (.size s.pool.length) = some s := by
   simp [step, hw]
 
-example : ∃ cfg s n, Reach cfg s ∧ step s (.size n) = some s ∧ n = 2 :=
+example : ∃ cfg s n, Reach .fixed cfg s ∧ step .fixed s (.size n) = some s ∧ n = 2 :=
   ⟨exampleCfg, exampleEnd, 2, reach_of_run _ _ _ .init exampleRun_ok, by decide, rfl⟩
 
 /-! ## the watcher ends with the pool -/
 
 /-- The watcher goroutine has ended exactly when the pool context is done, and an ended watcher
-takes no further step (with `eventually_done`: it does end once the pool is settled). -/
-theorem watcher_exits_with_pool {cfg : Config} {s : State} (hr : Reach cfg s) :
+takes no further step .fixed (with `eventually_done`: it does end once the pool is settled). -/
+theorem watcher_exits_with_pool {cfg : Config} {s : State} (hr : Reach .fixed cfg s) :
     (s.done = true ↔ s.pc = .finished) ∧
-      (s.pc = .finished → ∀ a : Label, a.isWatcher = true → step s a = none) := by
+      (s.pc = .finished → ∀ a : Label, a.isWatcher = true → step .fixed s a = none) := by
   refine ⟨(inv_of_reach hr).done_iff, ?_⟩
   intro hpc a ha
   cases a <;> simp [Label.isWatcher] at ha <;> simp [step, hpc]
@@ -336,26 +382,26 @@ theorem watcher_exits_with_pool {cfg : Config} {s : State} (hr : Reach cfg s) :
 writer is inside `Lock()`, that writer can complete, after which `wRelock` is enabled. -/
 theorem watcher_relock_not_stuck {s : State} {i : Nat} {op : WOp} (hpc : s.pc = .woken i)
     (hw : s.writer = some op) :
-    ∃ s1 s2, step s .complete = some s1 ∧ step s1 .wRelock = some s2 ∧ s2.pc = .head (i + 1) := by
-  have hpw : ∀ t : State, (applyOp t op).pc = t.pc ∧ (applyOp t op).writer = t.writer := by
+    ∃ s1 s2, step .fixed s .complete = some s1 ∧ step .fixed s1 .wRelock = some s2 ∧ s2.pc = .head (i + 1) := by
+  have hpw : ∀ t : State, (applyOp .fixed t op).pc = t.pc ∧ (applyOp .fixed t op).writer = t.writer := by
     intro t
     cases op with
     | cancel => simp only [applyOp]; split <;> exact ⟨rfl, rfl⟩
     | add c => simp only [applyOp]; split <;> exact ⟨rfl, rfl⟩
   have h1 := hpw { s with writer := none }
-  refine ⟨applyOp { s with writer := none } op,
-    { applyOp { s with writer := none } op with pc := .head (i + 1) }, ?_, ?_, rfl⟩
+  refine ⟨applyOp .fixed { s with writer := none } op,
+    { applyOp .fixed { s with writer := none } op with pc := .head (i + 1) }, ?_, ?_, rfl⟩
   · simp [step, hw, hpc, PC.holdsRead]
   · have relock : ∀ t : State, t.pc = .woken i → t.writer = none →
-        step t .wRelock = some { t with pc := .head (i + 1) } := by
+        step .fixed t .wRelock = some { t with pc := .head (i + 1) } := by
       intro t h2 h3; simp [step, h2, h3]
     exact relock _ (h1.1.trans hpc) h1.2
 
 /-- A writer inside `Lock()` is never blocked for ever by the watcher: from every lock-holding
 watcher state one or two watcher steps release the read lock. -/
 theorem writer_not_stuck {s : State} (hh : s.pc.holdsRead = true) :
-    ∃ s1, step s .wHead = some s1 ∧ (s1.pc.holdsRead = false ∨ ∃ s2, step s1 .wUnlock = some s2 ∧ s2.pc.holdsRead = false)
-      ∨ ∃ s2, step s .wUnlock = some s2 ∧ s2.pc.holdsRead = false := by
+    ∃ s1, step .fixed s .wHead = some s1 ∧ (s1.pc.holdsRead = false ∨ ∃ s2, step .fixed s1 .wUnlock = some s2 ∧ s2.pc.holdsRead = false)
+      ∨ ∃ s2, step .fixed s .wUnlock = some s2 ∧ s2.pc.holdsRead = false := by
   cases hpc : s.pc <;> simp [hpc, PC.holdsRead] at hh
   · rename_i i
     cases hget : s.pool[i]? with
@@ -369,7 +415,7 @@ theorem writer_not_stuck {s : State} (hh : s.pc.holdsRead = true) :
 /-- Every state `kitdrv C20` holds after any sequence of events is a reachable state of the
 model, so all theorems above apply to it. -/
 theorem sim_sound (cfg : Config) (evs : List Event) :
-    ∀ s ∈ (evs.foldl advance (Sim.start cfg)).states, Reach cfg s := by
+    ∀ s ∈ (evs.foldl advance (Sim.start cfg)).states, Reach .fixed cfg s := by
   have : ∀ (evs : List Event) (sim : Sim), AllReach cfg sim.states →
       AllReach cfg (evs.foldl advance sim).states := by
     intro evs
@@ -400,7 +446,7 @@ theorem t1_new_pool : newPoolBeforeGo =
      "p.lock.RLock()"] ∧ newPoolAfterGo = ["return p"] := by
   decide
 
-/-- Defers run last-in-first-out: `RUnlock` (`wUnlock`), the hook (`released`), `cancel()` (`wCancel`). -/
+/-- Defers run .fixed last-in-first-out: `RUnlock` (`wUnlock`), the hook (`released`), `cancel()` (`wCancel`). -/
 theorem t1_watcher_exit_order : watcherDefers.reverse =
     ["p.lock.RUnlock()", "verifhook.Point(\"pool.watch.beforeCancel\")", "cancel()"] := by
   decide
@@ -416,12 +462,19 @@ theorem t1_watcher_loop : watcherLoop =
      "p.lock.RLock()"] := by
   decide
 
-/-- `applyOp (.add c)`: whole body under the write lock; ignored iff the pool context or `closed` is done. -/
+/-- `applyOp .fixed (.add c)`: whole body under the write lock; ignored iff the pool context or
+`closed` is done or `p.anyLive()` is false (`State.addIgnored .fixed`). -/
 theorem t1_add : addBody =
     ["p.lock.Lock()",
      "defer p.lock.Unlock()",
-     "select { case <-p.Done():  | case <-p.closed:  | default: p.pool = append(p.pool, ctx.Done()) }",
+     "select { case <-p.Done():  | case <-p.closed:  | default: if p.anyLive() { p.pool = append(p.pool, ctx.Done()) } }",
      "return p"] := by
+  decide
+
+/-- `State.anyLive`: some channel in `p.pool` is not closed (non-blocking receive per entry). -/
+theorem t1_any_live : anyLiveBody =
+    ["for _, ch := range p.pool { select { case <-ch:  | default: return true } }",
+     "return false"] := by
   decide
 
 /-- `applyOp .cancel`: whole body under the write lock; `closed` is closed once, guarded by `p.pool != nil`. -/
